@@ -642,7 +642,9 @@ func (e *fnEnc) havocCell(st *state, addr string, t types.Type) {
 			}
 			return
 		}
-		e.unsupported("havoc of large array cell")
+		// a large array: the cells below the address become unknown, everything else stays
+		e.bigHavoc(st, addr, t)
+		return
 	}
 	s := e.sortOf(t)
 	v := e.declare("hv", s)
